@@ -76,7 +76,7 @@ func c10RunSelectPart(env *mc.Env, layouts []*c10Layout) {
 				c := c10SelCase{Layout: l.Name, Mask: mask, Want: want}
 				lc.Evals++
 				var got []int32
-				ps := mc.Guard(func() { got = calculateBESuppressCPUSetPolicy(want, pool) })
+				ps := c10Guard(func() { got = calculateBESuppressCPUSetPolicy(want, pool) })
 				if key, what := c10JudgeSel(l, c, pool, got, ps); key != "" {
 					res.Violate(mc.Violation{Key: key, What: fmt.Sprintf("%s; case %+v pool %v", what, c, pool), Replay: c})
 					continue
